@@ -1,6 +1,7 @@
 from __future__ import annotations
 
 import configparser
+import errno
 import mimetypes
 import os
 import os.path
@@ -40,6 +41,8 @@ class GopherEntry:
     num: int
     gopherpsupport: int
     ea: typing.Dict[str, str]
+    # Set when an attribute file (.abstract, ...) exists but could not be read
+    incomplete: bool = False
 
     def __init__(self, selector: str, config: configparser.ConfigParser):
         """Initialize object based on a selector and config."""
@@ -210,7 +213,14 @@ class GopherEntry:
             try:
                 # Only regular files are sidecars: never open a FIFO (which
                 # would block for ever) or a socket that carries such a name.
-                if not vfs.isfile(selector + extension):
+                try:
+                    statval = vfs.stat(selector + extension)
+                except OSError as e:
+                    if e.errno not in (None, errno.ENOENT, errno.ENOTDIR):
+                        # It may well be there; we could not even look.
+                        self.incomplete = True
+                    continue
+                if not stat.S_ISREG(statval[stat.ST_MODE]):
                     continue
                 with vfs.open(
                     selector + extension, "r", errors="surrogateescape"
@@ -220,7 +230,7 @@ class GopherEntry:
                         "\n".join([x.rstrip() for x in rfile.readlines(20480)]),
                     )
             except IOError:
-                pass
+                self.incomplete = True
 
     def getselector(self, default=None) -> str:
         if self.selector is None:
